@@ -400,10 +400,19 @@ class Point(HyperbolicObject, projective.Point):
         products = utils.apply_bilinear(self_hyp, other_hyp,
                                         self.minkowski)
 
-        # |<x, y>| is at least 1 for points on the unit hyperboloid, but
-        # it can round to slightly less than 1 when the points are
-        # equal (or very close), and arccosh would then give nan
-        return np.arccosh(np.maximum(np.abs(products), 1))
+        # cosh(d) - 1, where d is the distance and cosh(d) = |<x, y>|
+        cosh_excess = np.abs(products) - 1
+
+        # for nearby points the rounding of <x, y> (which is close to 1)
+        # wipes out the digits of d: d(x, x) came out as 2e-8 and the
+        # triangle inequality failed. <x - y, x - y> = 2(cosh(d) - 1)
+        # for x, y on the same sheet of the hyperboloid does not cancel.
+        diff = self_hyp - other_hyp
+        chord = utils.apply_bilinear(diff, diff, self.minkowski) / 2
+        cosh_excess = np.where(cosh_excess < 1e-3, chord, cosh_excess)
+
+        # arccosh(1 + z) = 2 arcsinh(sqrt(z / 2)), accurate for small z
+        return 2 * np.arcsinh(np.sqrt(np.maximum(cosh_excess, 0) / 2))
 
     def origin_to(self, force_oriented=True):
         """Get an isometry taking an "origin" point to this point
